@@ -361,6 +361,9 @@ def check_C06(tier, seed):
     quick = tier == "quick"
     kinds = {"stream", "reset", "finthenmore", "datagram", "crypto", "maxstreams"}
     r, cases, gst, scripts = hostile_scripts(tier, seed + 6, kinds)
+    # "buffers a bounded amount": the same stream range sent over and over behind a hole
+    for i in range(80 if quick else 1500):
+        scripts.append(scen.hostile_flood(r, len(scripts), kind="streamdup"))
     # honest runs for the buffering bound and credit-only-for-consumed clauses
     r2 = random.Random(seed * 7919 + 6)
     honest = [scen.flow_script(r2, i) for i in range(500 if quick else 20000)]
